@@ -226,6 +226,56 @@ pub fn check(ctx: &mut Ctx) {
         }
         None
     });
+    // several elements in one document whose attribute VALUES are permutations of each other under different names: the
+    // decision of one element must not leak into the next (a cache keyed too coarsely)
+    {
+        let variants: Vec<(&str, Option<&str>, bool)> = vec![
+            ("name=\"alpha\" c=\"beta\"", Some("alpha"), false),
+            ("c=\"alpha\" name=\"beta\"", Some("beta"), false),
+            ("c=\"alpha\"", None, false),
+            ("name=\"beta\" c=\"alpha\"", Some("beta"), false),
+            ("name=\"alpha\"", Some("alpha"), false),
+            ("name=\"beta\" skip", Some("beta"), true),
+            ("c=\"beta\" name=\"alpha\" d=\"alpha\"", Some("alpha"), false),
+        ];
+        let mut docs: Vec<(String, Vec<&'static str>, String)> = vec![];
+        let sets: Vec<Vec<&'static str>> = vec![vec![], vec!["alpha"], vec!["beta"], vec!["alpha", "beta"]];
+        let nv = variants.len();
+        for set in &sets {
+            for a in 0..nv {
+                for b in 0..nv {
+                    for c3 in (0..nv).map(Some).chain([None]) {
+                        let idx: Vec<usize> = [Some(a), Some(b), c3].iter().flatten().copied().collect();
+                        let (mut src, mut exp) = (String::from("s|"), String::from("s|"));
+                        for (k, i) in idx.iter().enumerate() {
+                            let (attrs, name, skip) = variants[*i];
+                            let el = format!("<rm {attrs}>X{k}</rm>");
+                            src.push_str(&el);
+                            src.push('|');
+                            let removed = !skip && name.map(|n| set.contains(&n)).unwrap_or(false);
+                            if !removed {
+                                exp.push_str(&el);
+                            }
+                            exp.push('|');
+                        }
+                        docs.push((src, set.clone(), exp));
+                    }
+                }
+            }
+        }
+        let n = docs.len();
+        let chunks: Vec<Vec<(String, Vec<&'static str>, String)>> = docs.chunks(200).map(|c| c.to_vec()).collect();
+        ctx.exhaustive("several-elements", &format!("{n} documents with 2-3 marker elements whose attribute values are permutations of each other (same values under different attribute names, with / without skip) x 4 target sets"), chunks, |chunk, obs| {
+            for (src, set, exp) in chunk {
+                let c = ProbeCase { src: src.clone(), cfg: base_cfg(set), expect_out: exp.clone(), why: "every element is decided by its own name attribute".into() };
+                obs.eval();
+                if let Verdict::Fail(m) = oracle(&c, obs, !set.is_empty(), true) {
+                    return Some(fail_case("several-elements", &c, m));
+                }
+            }
+            None
+        });
+    }
     cli_defaults(ctx);
 }
 
@@ -324,7 +374,7 @@ fn cli_defaults(ctx: &mut Ctx) {
     // without a final line break, alone or next to a flag
     let dir = std::path::PathBuf::from(format!("{}/.build/tmp/c06-{}", crate::engine::verif_dir(), std::process::id()));
     let _ = std::fs::create_dir_all(&dir);
-    let file_sets: Vec<Vec<&str>> = vec![vec!["a"], vec!["feature1", "a"], vec!["ab", "A", "feature10"]];
+    let file_sets: Vec<Vec<&str>> = vec![vec!["a"], vec!["feature1", "a"], vec!["ab", "A", "feature10"], vec!["feature1", "", "a"], vec!["", "ab"]];
     'files: for (si, set) in file_sets.iter().enumerate() {
         for (li, (eol, last)) in [("\n", true), ("\n", false), ("\r\n", true), ("\r\n", false)].iter().enumerate() {
             let mut text = set.join(eol);
